@@ -291,8 +291,11 @@ func (e *Engine) commitNew(op *COp, h ecs.Entity) *Violation {
 	if e.listening() {
 		e.expEvents = append(e.expEvents, e.M.creationEvent(me))
 	}
-	if !target.IsZero() && target == h {
-		e.St.Probes["self-target"]++
+	if !target.IsZero() {
+		e.St.Probes["target-assigned"]++
+		if target == h {
+			e.St.Probes["self-target"]++
+		}
 	}
 	return nil
 }
@@ -512,6 +515,9 @@ func (e *Engine) opRemove(c *cursor) *Violation {
 
 func (e *Engine) commitExchange(op *COp, me *MEnt) {
 	hasRel, rel, target := e.exchangeRelArgs(op)
+	if hasRel && !target.IsZero() {
+		e.St.Probes["target-assigned"]++
+	}
 	ev := e.M.applyExchange(me, op.Add, op.Rem, rel, hasRel, target)
 	if op.With {
 		for i, t := range op.Add {
@@ -784,6 +790,10 @@ func (e *Engine) commitSetRel(op *COp, me *MEnt) {
 	me.Target = op.Target
 	if !op.Target.IsZero() {
 		e.M.Targets[op.Target] = true
+		e.St.Probes["target-assigned"]++
+		if op.Target == me.H {
+			e.St.Probes["self-target"]++
+		}
 	}
 	e.touched[me.H] = true
 	if e.listening() {
